@@ -14,15 +14,20 @@ from .common import K, Mode
 
 EXPLANATION = ('Two-time relational symbolic execution: the real solver is run at (x, t) and at the similarity image '
                '(s x, s t) (s > 0 symbolic; for Sedov at t and s t) in one solver context and z3 decides that the outputs are '
-               'related by the documented similarity map on every pair of feasible paths.')
+               'related by the documented similarity map on every pair of feasible paths.  Sedov interior: the whole _run on a 2-point '
+               'internal table (fminbound -> fresh value, interp1d exact at nodes) in infinitesimal form, generator D = t d/dt + a0 r d/dr: '
+               'D r_shock = a0 r_shock, the lambda handed to fminbound is r/r_shock, the similarity functions at fixed v do not depend on '
+               '(r, t), D rho = -omega a0 rho, D u = (a0-1) u, D p = (-omega a0 + 2(a0-1)) p.  General-EOS wrapper: a call at t after an '
+               'earlier call at another time returns the interpolant of the self-similar table xd0 + t w_k of this t (stub driver).')
 BOUNDS = ['one evaluation point; geometry enumerated; gamma sliced for Riemann/Sedov']
-OUTSIDE = ['Sedov interior profile (fminbound/interp1d numerics): only the shock trajectory and post-shock amplitudes and the fact '
-           'that the similarity functions take dimensionless arguments', 'Guderley: see C10.guderley obligations']
+OUTSIDE = ['Sedov interior: accuracy of the fminbound inversion and of the interpolation between the 3001 internal table points '
+           '(the check runs the same code on a 2-point table whose node is the user point)', 'Guderley: see C10.guderley obligations']
 ASSUMPTIONS = ['Riemann: unique star-pressure root (the root function is shown to be time-independent)']
 META = {
     'level_text': ('Bounded relational symbolic check on the real code: fields at (x,t) and at the similarity image are equal '
                    '(Noh, Cog19, Riemann wave table and fans, EHEP, Mader incl. cell size) or differ by the documented powers of '
-                   'the time ratio (Sedov shock radius and post-shock amplitudes), for all real inputs on every path pair.'),
+                   'the time ratio (Sedov shock radius and post-shock amplitudes; Sedov interior fields in infinitesimal form through the '
+                   'whole _run on a 2-point table), for all real inputs on every path pair.'),
     'level_note': 'Trusted: z3; symx proxies/shims/stubs; the similarity maps written in harness/C10.py.',
 }
 
